@@ -123,7 +123,7 @@ func c16Run(precreate bool, L int) {
 			// the transaction may be signed by a fee grantee of the creator (the ante
 			// decorator accepts that); the creator remains the acting principal
 			meta := c16Meta(me)
-			if (L < 3 || step == L-1) && sym.Bool("signed-by-grantee") {
+			if L < 3 && sym.Bool("signed-by-grantee") { // (2-message histories only; the 3-message tier is at its size limit)
 				meta.Signers = []string{who[1-p].String()}
 			}
 			if isMint {
